@@ -3,3 +3,7 @@ prop('C02','exploration','reference-model monitor (independent non-rolling chunk
  'Runs Chunker.Next, IndexFromFile(n=1..16), ChunkStream and `desync make` on generated inputs (boundary-sized, zero runs at worker starts, strided tails) under perturbed schedules with -race and compares every chunk table with an independent reference chunker anchored to a casync-made fixture; held on the cases explored, no proof.',
  'Trusted: oracle/refchunker.go (frozen buzhash table + discriminator formula, anchored against testdata/chunker.index each run), Go crypto hashes, the race detector. Schedules are sampled, not enumerated.',
  'DESIGN.md 5/C02')
+prop('C01','exploration','byte-compare oracle over generated extract scenarios + emulated FICLONERANGE + deadlock classification of goroutine dumps + Go race detector',
+ 'Runs AssembleFile (and `desync extract`) on PRNG-generated blobs, seed sets (stale, empty, duplicate, self-aliasing ...), prior target contents, invalid-seed actions, worker counts, with and without an in-process FICLONERANGE emulation following the kernel checks, under schedule perturbation with -race; success must mean output == blob, and success is demanded where the statement demands it; panics and deadlocks are child crashes attributed to the case.',
+ 'Block cloning is emulated (no reflink filesystem here): kernel behaviour is modelled from generic_remap_* not observed. Hangs are decided from goroutine dumps (all goroutines blocked on sync primitives), the wall-clock watchdog alone is inconclusive.',
+ 'DESIGN.md 5/C01')
